@@ -1,20 +1,19 @@
 (* C03 - write then parse is the identity, including for what goes on the wire.
    Statements only; proofs are in Wire/Write_proofs.v.
 
-   FULL STATEMENTS (kept visible; docs/C03.md says what carries them today):
-     C03_roundtrip : forall d bs, (built_by_api d \/ exists bs0, dns_parse bs0 0 = Ok d) -> canonical_names d ->
-         dns_write d = Ok bs ->
-         Z.of_nat (length bs) <= 65535 /\ exists d', dns_parse bs 0 = Ok d' /\ record_eqb d d' = true /\ dns_write d' = Ok bs
-     C03_frame_any_position : forall d b b', write_buf_tcp wfixed d b = Ok (ARES_SUCCESS, b') ->
-         exists m, w_live b' = w_live b ++ be16 (length m) ++ m /\ dns_write d = Ok m
-     C03_query_builders : create_query ... = Ok bs -> parse bs = the one-question record
-   (C03_roundtrip is claimed for records with exactly ONE question: ares_dns_parse() refuses every
-   other QDCOUNT, see findings/C03.json roundtrip-question-count)
-   They are decided on every run by the implementation-only oracle (write -> parse -> record_eqb ->
-   rewrite, TCP frames at positions after 0..3 earlier frames and partial sends, legacy builders)
-   and by the correspondence of the extracted writer model with the library.  Proved below: the
-   statements do NOT hold for the pinned tree (five witnesses, each a defect with a patch or a
-   finding). *)
+   The three statements of DESIGN.md 4/C03 are theorems below (model of the tree with the fixes
+   applied = what /repo contains), each under an explicit well-formedness predicate:
+     C03_roundtrip          : msg_wf d -> dns_write d = Ok bs -> |bs| <= 65535 /\ parse bs = canon d
+                              (and the parsed record re-serialises to bs when names are canonical)
+     C03_frame_any_position : a TCP frame at any buffer position = be16 length ++ dns_write d
+     C03_query_builders     : create_query ... = Ok bs -> parse bs = the one-question record
+   C03_roundtrip is claimed for records with exactly ONE question (ares_dns_parse() refuses every
+   other QDCOUNT, findings/C03.json roundtrip-question-count) and excludes the other shapes filed
+   as findings.  All of them are also decided on every run by the implementation-only oracle
+   (write -> parse -> record_eqb -> rewrite, TCP frames at positions after 0..3 earlier frames and
+   partial sends, legacy builders) and by the correspondence of the extracted writer model with
+   the library.  Also below: the statements do NOT hold for the pinned tree (witnesses, each a
+   defect with a patch or a finding). *)
 From CAres.Wire Require Import Cursor Name Record Parse Escape Escape_proofs RefDecode Name_ref Write Roundtrip Write_proofs Write_name Write_host Write_name2 Write_pos Write_boundary Write_query Write_patch Write_query2 Write_rr Write_msg Write_frame.
 From CAres.Gen Require Import Consts Tables.
 Local Open Scope Z_scope.
